@@ -54,6 +54,8 @@ module Nat :
 
   val leb : nat -> nat -> bool
 
+  val ltb : nat -> nat -> bool
+
   val max : nat -> nat -> nat
  end
 
@@ -1461,6 +1463,25 @@ val skip_shebang : char list -> char list
 val p_seq : nat -> nat -> char list -> val0 list -> val0 list rres0
 
 val read_sexprs : char list -> val0 list rres0
+
+type wstmt = val0 list * val0
+
+val is_marker : char list -> val0 list -> bool
+
+val begin_actions : wstmt list -> val0 list
+
+val end_actions : wstmt list -> val0 list
+
+val cond_statements : wstmt list -> wstmt list
+
+val find_vars :
+  nat -> val0 -> (char list * val0) list -> (char list * val0) list option
+
+val emit_main_loop : wstmt list -> val0
+
+val wawk_emit : wstmt list -> val0 list option
+
+val wawk_run : char list -> wstmt list -> unit m
 
 val pF : nat
 
